@@ -262,11 +262,24 @@ class Check:
 
 def load_known(pid=None):
     p = os.path.join(ROOT, "known_findings.json")
-    if not os.path.exists(p):
-        return []
-    with open(p) as f:
-        data = json.load(f)
-    out = [e for e in data.get("findings", []) if pid is None or pid in e.get("properties", [e.get("property")])]
+    entries = []
+    if os.path.exists(p):
+        with open(p) as f:
+            entries += json.load(f).get("findings", [])
+    kd = os.path.join(ROOT, "known")       # per-property fragments (merged into the main file when integrated)
+    if os.path.isdir(kd):
+        for fn in sorted(os.listdir(kd)):
+            if fn.endswith(".json"):
+                with open(os.path.join(kd, fn)) as f:
+                    entries += json.load(f)
+    seen, out = set(), []
+    for e in entries:
+        key = (e.get("id"), tuple(e.get("properties", [e.get("property")])))
+        if key in seen:
+            continue
+        seen.add(key)
+        if pid is None or pid in e.get("properties", [e.get("property")]):
+            out.append(e)
     return out
 
 
